@@ -71,7 +71,7 @@ def render_state(gw):
         if not hasattr(node, "sensor_id") or not hasattr(node, "queue"):
             continue
         toks += ["X", str(node.sensor_id), "1" if node.reboot else "0", "Q"]
-        toks += [enc_str(q) for q in node.queue]
+        toks += [enc_str(q) if isinstance(q, str) else "?" + type(q).__name__ for q in node.queue]
         for cid, dch in node.new_state.items():
             toks += ["D", str(cid)]
             for k, v in dch.values.items():
